@@ -38,17 +38,46 @@ UNDECIDED_MSGS = ('Resource limit', 'rlimit', 'timed out', 'could not be proved 
 PANIC_KINDS = ('precondition not satisfied', 'possible arithmetic underflow/overflow', 'possible division by zero')
 
 
-def world():
-    w = json.load(open(os.path.join(VERIF, 'world.json')))
+def unit_worlds():
+    p = os.path.join(VERIF, 'units.json')
+    return json.load(open(p)) if os.path.exists(p) else {}
+
+
+def world(unit=None):
+    """template files of the world a unit lives in (world.json unless units.json says otherwise)"""
+    wf = unit_worlds().get(unit, 'world.json') if unit else 'world.json'
+    w = json.load(open(os.path.join(VERIF, wf)))
     return [os.path.join(VERIF, f) for f in w['files']]
+
+
+def all_world_files():
+    out = []
+    for wf in ['world.json'] + sorted(set(unit_worlds().values())):
+        w = json.load(open(os.path.join(VERIF, wf)))
+        for f in w['files']:
+            p = os.path.join(VERIF, f)
+            if p not in out:
+                out.append(p)
+    return out
 
 
 def all_directives():
     out = []
-    for wf in world():
-        for seg in extract.parse_template(wf):
-            if not isinstance(seg, str) and seg.kind in ('fn', 'block'):
-                out.append(seg)
+    seen = set()
+    for wf in ['world.json'] + sorted(set(unit_worlds().values())):
+        w = json.load(open(os.path.join(VERIF, wf)))
+        own_units = {u for u, x in unit_worlds().items() if x == wf}
+        for f in w['files']:
+            for seg in extract.parse_template(os.path.join(VERIF, f)):
+                if not isinstance(seg, str) and seg.kind in ('fn', 'block'):
+                    u = seg.opt('unit')
+                    # a directive belongs to the world its unit is mapped to
+                    if unit_worlds().get(u, 'world.json') != wf:
+                        continue
+                    key = (f, seg.line_no)
+                    if key not in seen:
+                        seen.add(key)
+                        out.append(seg)
     return out
 
 
@@ -69,7 +98,7 @@ def units_for(prop):
 def tree_hash():
     h = hashlib.sha256()
     files = sorted(glob.glob(os.path.join(REPO, 'src', '**', '*.rs'), recursive=True))
-    files += world()
+    files += all_world_files()
     files += sorted(glob.glob(os.path.join(HERE, '*.py')))
     files.append(os.path.join(VERIF, 'world.json'))
     for f in files:
@@ -150,8 +179,8 @@ def process_unit(unit, outdir, rlimit):
            'wall_s': 0.0, 'canary': {}, 'verus_cmd': ''}
     t0 = time.time()
     try:
-        path, report = extract.build_unit(world(), unit, outdir)
-        cpath, cnames = extract.build_canary_unit(world(), unit, outdir)
+        path, report = extract.build_unit(world(unit), unit, outdir)
+        cpath, cnames = extract.build_canary_unit(world(unit), unit, outdir)
     except extract.ExtractError as e:
         res['status'] = 'undecided'
         res['undecided'].append('extract: %s' % e)
@@ -329,10 +358,9 @@ def finding_matches(f, prop, err):
 def err_props(err):
     """properties an error is attributed to"""
     ps = set(err['tags']) if err['tags'] else (set(err['props']) - {'C05'})   # C05 is about panics only
-    if err['panic_kind']:
+    if err['panic_kind'] and not err['tags']:
         ps.add('C05')
-        if not err['tags']:
-            ps |= set(err['props'])
+        ps |= set(err['props'])
     return ps
 
 
